@@ -173,7 +173,7 @@ def main : IO Unit := do
       | some e => IO.println s!"ERR {e}"
       | none =>
         let L0 : Loop Float (U Float) Elem Loc := { s := s0, tr := [], t := if dyn == "sto" then 0.0 else 1.0 }
-        let L := if dyn == "sto" then runSto P 1000000 1000000 L0 else runSyn P 1000000 1000000 L0
+        let L := if dyn == "sto" then runSto P 2000 4000 L0 else runSyn P 2000 4000 L0
         for l in L.s.u.out do IO.println l
         let mon := if L.s.u.mon.times.isEmpty then "" else
           " mon=" ++ ",".intercalate (L.s.u.mon.times.map fbits) ++ "/" ++ ";".intercalate (L.s.u.mon.vals.map fun row => ",".intercalate (row.map toString))
